@@ -44,8 +44,9 @@ def tab1(ctx, c):
             "is_pseudo_define": False, "is_string_define": False, "is_include": False, "is_origin": False, "is_name": False,
             "is_multi_byte": False, "is_multi_word": False,
         }
-        if has_imm:
-            exp["is_16_bit"] = m in mc6809.IMM16
+        # the flag widens EVERY literal of the statement to 16 bits (Value.create_from_str), constant index offsets included: it belongs to the
+        # instructions with a 16-bit immediate and to no other
+        exp["is_16_bit"] = m in mc6809.IMM16
         for fl, want in exp.items():
             c.check(r.flags[fl] == want, "flag:%s.%s" % (m, fl), str(want), "%s=%s (reference %s)" % (fl, r.flags[fl], want),
                     "%s: flag %s is %s, the MC6809 reference implies %s" % (m, fl, r.flags[fl], want), where)
